@@ -3317,6 +3317,10 @@ namespace bloch::runtime {
                 m_trackedCounts[key][outcome]++;
             }
         }
+        // Take the scope out of the stack before its values die: releasing the last reference to
+        // an object runs its destructor, which pushes and pops scopes of its own. Destroying the
+        // map in place (inside pop_back) would let that re-enter a vector that is mid-update.
+        auto dying = std::move(m_env.back());
         m_env.pop_back();
     }
 
